@@ -13,9 +13,9 @@ def run(ctx):
                        "and its observable projection compared with a reference index built from the rows the specification prescribes; `updog schema` exit status.")
     ctx.assumptions += ["Unicode lower-casing is represented by character classes; the harness concretises them (non-ASCII class: U+00C9)",
                         "the library (validated against the specification by C01/C02/C05) serves as comparison device for the observable projection of the two index files"]
-    ctx.design("MC_CLI", ctx.cfg_variant("MC_CLI.cfg", dict(MaxRecs=2)), label="create/schema")
+    ctx.design("MC_CLI", ctx.cfg_variant("MC_CLI.cfg", dict(MaxRecs=3 if thorough else 2)), label="create/schema")
     path = os.path.join(ctx.work, "cli.ndjson")
-    r = ctx.gen_to_file("MC_CLI", ctx.cfg_variant("MC_CLI.cfg", dict(MaxRecs=2, Emit="TRUE")), path, workers=4, label="gen-cli")
+    r = ctx.gen_to_file("MC_CLI", ctx.cfg_variant("MC_CLI.cfg", dict(MaxRecs=3 if thorough else 2, Emit="TRUE")), path, workers=4, label="gen-cli")
     if r["emitted"] < 100:
         raise Broken("MC_CLI emitted too few cases")
     ctx.run_replay("replay-cli", ["-in", path, "-updog", updog, "-stride", "1" if thorough else "5"], "replay-cli", sigkeys=("kind", "defect", "pre"), timeout=3000)
